@@ -38,14 +38,21 @@ func TestMain(m *testing.M) {
 	stats.Describe("exploration",
 		"A real observedaddrs.Manager (real event bus, fake network.Network) is driven through generated histories of "+
 			"observe / re-observe same / observe something else on the same connection / close / observe-after-close / close-again / "+
-			"clock advance over a generated population: listen addresses on IPv4 and/or IPv6, unspecified and specific IPs, TCP(+ws) and "+
-			"QUIC(+WebTransport) sharing a thin waist, split over ListenAddresses / InterfaceListenAddresses (with duplicates and a bare "+
-			"/p2p-circuit); remote observers that share an IPv4 address (different ports), share an IPv6 /56 (different /64, /57) or "+
+			"clock advance over a generated population: listen addresses on IPv4 and/or IPv6, unspecified and specific IPs; per local IP "+
+			"a generated LISTEN SET = any subset of {tcp, ws, tls/ws, tls/sni/ws} on one TCP port plus any subset of {QUIC, WebTransport, "+
+			"WebRTC-direct} on one UDP port in a generated order (one history in three: only tcp and QUIC(+WebTransport)), so that listen addresses share a thin waist with rests that are equal "+
+			"prefixes of each other (quic-v1 | quic-v1/webtransport) or DIFFER at an overlapping position (quic-v1 | webrtc-direct, ws | tls/ws), "+
+			"split over ListenAddresses / InterfaceListenAddresses (with duplicates and a bare /p2p-circuit); remote observers that share an IPv4 address (different ports), share an IPv6 /56 (different /64, /57) or "+
 			"differ only in bit 55; observed addresses that are public, private, loopback, NAT64 (both prefixes), relayed, of the other "+
 			"transport, of the other IP family, not thin-waist, or nil; connections arriving at non-listen addresses. After EVERY event "+
 			"AddrsFor(every listen address), AddrsFor(every non-listen connection address), Addrs(0) and Addrs(k) are checked against "+
-			"group counts recomputed from the history. Deterministic sweeps additionally walk every threshold 1..5 across the boundary "+
-			"for IPv4 and IPv6 and build >3 qualifying addresses with ties. "+
+			"group counts recomputed from the history; the listen addresses are asked in a generated order (each history draws 1-4 query plans, every "+
+			"check point uses one of them: listed / reversed / a generated permutation / its reverse, rotated, up to three addresses asked "+
+			"again after the pass, Addrs before or after the pass). Every answer must be an observed thin waist followed by exactly the rest of the listen address that was asked about, "+
+			"whatever was asked before; every non-empty answer is kept (the first 8 of a history plus a window of 24) and must still read the "+
+			"same at every later check point. Deterministic sweeps additionally walk every threshold 1..5 across the boundary "+
+			"for IPv4 and IPv6, build >3 qualifying addresses with ties, and (TestSharedWaistSweep) enumerate every >=2-member listen set on "+
+			"one TCP / one UDP port x reporting member x every order of asking. "+
 			"NON-TRIVIAL = at some check point an observed address has a group count within +-1 of the threshold, or more than three "+
 			"addresses qualify for one local thin waist. DISTINCT = threshold + trajectory of the multiset of per-thin-waist group-count "+
 			"multisets over the history.",
@@ -54,6 +61,7 @@ func TestMain(m *testing.M) {
 		"close = the connection reports IsClosed() and the Disconnected notification is delivered in the same step",
 		"the set of listen addresses is fixed for the duration of a history; the fake network returns fresh slices like the real swarm",
 		"exactly min(3, #qualifying) addresses are expected per listen address (DESIGN: all qualifying ones when <= 3)",
+		"an address reported for a listen address = observed thin waist + that listen address's own rest (certhashes included); 'does not change because another listen address was asked' is judged by validating every repeated answer against the model (ties stay free), 'keeps its value' by comparing each returned multiaddr with a component-wise copy taken when it was returned",
 	)
 	hx.Main(m)
 }
@@ -112,12 +120,19 @@ type laddr struct {
 	proto string // "tcp" / "udp"
 }
 
+var canonMemo sync.Map // text -> canonical text (a pure function of the text; memoised because scenario generation calls it for every address)
+
 func canon(s string) string {
+	if v, ok := canonMemo.Load(s); ok {
+		return v.(string)
+	}
 	m, err := ma.NewMultiaddr(s)
 	if err != nil {
 		panic(fmt.Sprintf("harness bug: bad multiaddr %q: %v", s, err))
 	}
-	return m.String()
+	c := m.String()
+	canonMemo.Store(s, c)
+	return c
 }
 
 func mkLaddr(fam int, ip, proto string, port int, rest string) laddr {
@@ -166,7 +181,18 @@ type op struct {
 	conn int
 	obs  obsSpec
 	dur  time.Duration
-	tag  string // generator intent, for labels only
+	tag  string    // generator intent, for labels only
+	q    queryPlan // how the manager is questioned at the check point after this event
+}
+
+// queryPlan is the order in which the listen addresses are put to AddrsFor at one check
+// point. The zero value is "every distinct listen address once, in listed order, then
+// Addrs".
+type queryPlan struct {
+	mode       int   // 0 listed order, 1 reversed, 2 the scenario's permutation, 3 that permutation reversed
+	rot        int   // rotation applied to that order
+	again      []int // positions of the order that are asked once more after the first pass (A, ..., B, ..., A)
+	addrsFirst bool  // Addrs(0) / Addrs(k) before the AddrsFor pass instead of after it
 }
 
 type scenario struct {
@@ -174,8 +200,90 @@ type scenario struct {
 	minObs  int     // extra query Addrs(minObs)
 	la, ifa []laddr // ListenAddresses / InterfaceListenAddresses
 	probes  []laddr // non-listen connection addresses, queried through AddrsFor
+	perm    []int   // a permutation of the distinct listen addresses (queryPlan modes 2 and 3)
 	conns   []connSpec
 	ops     []op
+}
+
+// order resolves a query plan over n distinct listen addresses to the sequence of
+// indices to ask.
+func (sc *scenario) order(q queryPlan, n int) []int {
+	base := make([]int, n)
+	for i := range base {
+		base[i] = i
+	}
+	if q.mode >= 2 && len(sc.perm) == n {
+		copy(base, sc.perm)
+	}
+	if q.mode%2 == 1 {
+		slices.Reverse(base)
+	}
+	out := make([]int, 0, n+len(q.again))
+	for i := 0; i < n; i++ {
+		out = append(out, base[(i+q.rot)%n])
+	}
+	for _, a := range q.again {
+		if n > 0 {
+			out = append(out, out[a%n])
+		}
+	}
+	return out
+}
+
+// Transport parts ("rests") that can follow a thin waist in a listen address, with their
+// components attached by construction. Several of them can be bound to ONE port and then
+// share a thin waist: tcp / ws / tls+ws (/ tls+sni+ws) on a TCP port, QUIC / WebTransport /
+// WebRTC-direct on a UDP port.
+const (
+	wtRest     = "/quic-v1/webtransport/certhash/uEgNmb28"
+	webrtcRest = "/webrtc-direct/certhash/uEiDDq4_xNyDorZBH3TlGazyJdOWSwvo4PUo5YHFMrvDE8g"
+	sniWSRest  = "/tls/sni/example.com/ws"
+)
+
+var (
+	tcpRests  = []string{"", "/ws", "/tls/ws", sniWSRest}
+	udpRests  = []string{"/quic-v1", wtRest, webrtcRest}
+	restParts = map[string][]string{
+		"":         nil,
+		"/ws":      {"/ws"},
+		"/tls/ws":  {"/tls", "/ws"},
+		sniWSRest:  {"/tls", "/sni/example.com", "/ws"},
+		"/quic-v1": {"/quic-v1"},
+		wtRest:     {"/quic-v1", "/webtransport", "/certhash/uEgNmb28"},
+		webrtcRest: {"/webrtc-direct", "/certhash/uEiDDq4_xNyDorZBH3TlGazyJdOWSwvo4PUo5YHFMrvDE8g"},
+	}
+)
+
+// restsDiffer: the two rests have different components at a position both of them have
+// (quic-v1 vs webrtc-direct, ws vs tls/ws; NOT quic-v1 vs quic-v1/webtransport/.., NOT "" vs ws).
+func restsDiffer(a, b string) bool {
+	pa, okA := restParts[canonRest(a)]
+	pb, okB := restParts[canonRest(b)]
+	if !okA || !okB {
+		panic(fmt.Sprintf("harness bug: rest %q or %q is not in the rest table", a, b))
+	}
+	for i := 0; i < min(len(pa), len(pb)); i++ {
+		if pa[i] != pb[i] {
+			return true
+		}
+	}
+	return false
+}
+
+var canonRestMemo sync.Map
+
+// canonRest maps the canonical text of a rest (as stored in laddr.rest) back to its table key.
+func canonRest(r string) string {
+	if v, ok := canonRestMemo.Load(r); ok {
+		return v.(string)
+	}
+	for k := range restParts {
+		if k == r || (k != "" && canon("/ip4/1.2.3.4/tcp/1" + k)[len("/ip4/1.2.3.4/tcp/1"):] == r) {
+			canonRestMemo.Store(r, k)
+			return k
+		}
+	}
+	panic(fmt.Sprintf("harness bug: rest %q is not in the rest table", r))
 }
 
 // remote observer (fam, group index g, member m): members of one group share the IPv4
@@ -408,6 +516,11 @@ func validateFor(cnt map[string]int, thresh int, rest string, got []string) stri
 			}
 		}
 		if obs == "" {
+			for _, o := range keysSorted {
+				if strings.HasPrefix(g, o+"/") || g == o {
+					return fmt.Sprintf("returned %s = observed thin waist %s followed by %q, but the rest of this listen address is %q (%d observer group(s) for that thin waist, threshold %d)", g, o, g[len(o):], rest, cnt[o], thresh)
+				}
+			}
 			return fmt.Sprintf("returned %s, which no open connection at this local address currently vouches for (0 observer groups, threshold %d)", g, thresh)
 		}
 		if seen[obs] {
@@ -576,8 +689,72 @@ func runScenario(sc *scenario) (out outcome, failure string) {
 			out.labels["listen:shared-thin-waist"] = true
 		}
 	}
+	// thin waist -> one pair (i < j, indices into listen) of listen addresses sharing it whose rests differ at an overlapping position
+	differPair := map[string][2]int{}
+	for i, a := range listen {
+		for j := i + 1; j < len(listen); j++ {
+			if b := listen[j]; a.tw != "" && a.tw == b.tw && restsDiffer(a.rest, b.rest) {
+				if _, ok := differPair[a.tw]; !ok {
+					differPair[a.tw] = [2]int{i, j}
+				}
+			}
+		}
+	}
+	if len(differPair) > 0 {
+		out.labels["listen:shared-waist-rests-differ"] = true
+	}
 
-	check := func(step int) string {
+	// Values handed out earlier: the slice as returned and an element-wise copy made at that
+	// moment. A report the caller holds must keep its value whatever is asked or happens later.
+	// a question is an int: i >= 0 = AddrsFor(listen[i]), -1-k = Addrs(k); rendered only for failure messages
+	qText := func(q int) string {
+		if q < 0 {
+			return fmt.Sprintf("Addrs(%d)", -1-q)
+		}
+		return "AddrsFor(" + listen[q].s + ")"
+	}
+	qTexts := func(qs []int) []string {
+		out := make([]string, len(qs))
+		for i, q := range qs {
+			out[i] = qText(q)
+		}
+		return out
+	}
+	type heldAnswer struct {
+		what     int
+		step     int
+		got, cpy []ma.Multiaddr
+	}
+	var held []heldAnswer
+	const heldFirst, heldMax = 8, 32 // the first 8 non-empty answers stay for the whole history, the rest is a window
+	hold := func(what int, step int, got []ma.Multiaddr) {
+		if len(got) == 0 {
+			return
+		}
+		cpy := make([]ma.Multiaddr, len(got))
+		for i, a := range got {
+			cpy[i] = slices.Clone(a)
+		}
+		if len(held) == heldMax {
+			held = slices.Delete(held, heldFirst, heldFirst+1)
+		}
+		held = append(held, heldAnswer{what: what, step: step, got: got, cpy: cpy})
+	}
+	verifyHeld := func(step int, asked []int) string {
+		for _, h := range held {
+			for i := range h.got {
+				if !h.got[i].Equal(h.cpy[i]) {
+					return fmt.Sprintf("the answer %v that %s returned at check point %d now reads %v (element %d changed in the caller's hands); queries at this check point: %v", strs(h.cpy), qText(h.what), h.step, strs(h.got), i, qTexts(asked))
+				}
+			}
+			if h.step != step {
+				out.labels["held:across-event"] = true
+			}
+		}
+		return ""
+	}
+
+	check := func(step int, q queryPlan) string {
 		groups, nconns := mod.counts()
 		// coverage bookkeeping
 		var state []string
@@ -631,8 +808,46 @@ func runScenario(sc *scenario) (out outcome, failure string) {
 			out.traj = append(out.traj, s)
 		}
 
-		for i, l := range listen {
-			got := strs(mgr.AddrsFor(listenMA[i]))
+		var asked []int // the questions of this check point, in order (for failure messages)
+		askAll := func() string {
+			for _, k := range []int{0, sc.minObs} {
+				thresh := sc.thresh
+				if k != 0 {
+					thresh = k
+				}
+				asked = append(asked, -1-k)
+				gotMA := mgr.Addrs(k)
+				got := strs(gotMA)
+				if msg := validateAll(groups, thresh, listen, got); msg != "" {
+					return fmt.Sprintf("Addrs(%d) = %v: %s; group counts: %v; queries at this check point: %v", k, got, msg, groups, qTexts(asked))
+				}
+				hold(-1-k, step, gotMA)
+			}
+			return ""
+		}
+		if q.addrsFirst {
+			out.labels["query:addrs-before-addrsfor"] = true
+			if msg := askAll(); msg != "" {
+				return msg
+			}
+		}
+		order := sc.order(q, len(listen))
+		first := map[int][]string{} // listen index -> its first answer at this check point
+		pos := map[int]int{}        // listen index -> position of its first query
+		for n, i := range order {
+			l := listen[i]
+			asked = append(asked, i)
+			gotMA := mgr.AddrsFor(listenMA[i])
+			got := strs(gotMA)
+			prev, again := first[i]
+			if !again {
+				first[i], pos[i] = got, n
+				if n > 0 && order[n-1] > i {
+					out.labels["query:order-not-as-listed"] = true
+				}
+			} else {
+				out.labels["query:asked-again"] = true
+			}
 			if l.tw == "" {
 				if len(got) != 0 {
 					return fmt.Sprintf("AddrsFor(%s) = %v for an address without thin waist", l.s, got)
@@ -640,7 +855,24 @@ func runScenario(sc *scenario) (out outcome, failure string) {
 				continue
 			}
 			if msg := validateFor(groups[l.tw], sc.thresh, l.rest, got); msg != "" {
-				return fmt.Sprintf("AddrsFor(%s) = %v: %s; group counts for this thin waist: %v", l.s, got, msg, groups[l.tw])
+				if again && !slices.Equal(prev, got) {
+					msg += fmt.Sprintf(" [the same question was answered %v earlier at this check point, with no event in between]", prev)
+				}
+				return fmt.Sprintf("AddrsFor(%s) = %v: %s; group counts for this thin waist: %v; queries at this check point: %v", l.s, got, msg, groups[l.tw], qTexts(asked))
+			}
+			if again && len(got) > 0 {
+				out.labels["query:asked-again:advertised"] = true
+			}
+			hold(i, step, gotMA)
+		}
+		for _, k := range sortedKeys(differPair) {
+			if qualifying(groups[k], sc.thresh) > 0 {
+				out.labels["shared-waist-rests-differ:advertised"] = true
+				if p := differPair[k]; pos[p[0]] < pos[p[1]] {
+					out.labels["shared-waist-rests-differ:advertised:asked-in-listed-order"] = true
+				} else {
+					out.labels["shared-waist-rests-differ:advertised:asked-in-opposite-order"] = true
+				}
 			}
 		}
 		for i, p := range sc.probes {
@@ -648,16 +880,15 @@ func runScenario(sc *scenario) (out outcome, failure string) {
 				return fmt.Sprintf("AddrsFor(%s) = %v although %s is not a listen address: reports on such connections never count", p.s, got, p.tw)
 			}
 		}
-		if msg := validateAll(groups, sc.thresh, listen, strs(mgr.Addrs(0))); msg != "" {
-			return fmt.Sprintf("Addrs(0) = %v: %s; group counts: %v", strs(mgr.Addrs(0)), msg, groups)
+		if !q.addrsFirst {
+			if msg := askAll(); msg != "" {
+				return msg
+			}
 		}
-		if msg := validateAll(groups, sc.minObs, listen, strs(mgr.Addrs(sc.minObs))); msg != "" {
-			return fmt.Sprintf("Addrs(%d) = %v: %s; group counts: %v", sc.minObs, strs(mgr.Addrs(sc.minObs)), msg, groups)
-		}
-		return ""
+		return verifyHeld(step, asked)
 	}
 
-	if msg := check(-1); msg != "" {
+	if msg := check(-1, queryPlan{}); msg != "" {
 		return out, "before any event: " + msg
 	}
 	for i, o := range sc.ops {
@@ -711,7 +942,7 @@ func runScenario(sc *scenario) (out outcome, failure string) {
 		}
 		synctest.Wait()
 		mod.apply(o)
-		if msg := check(i); msg != "" {
+		if msg := check(i, o.q); msg != "" {
 			return out, fmt.Sprintf("after step %d (threshold %d; listen %v + %v):\n  %s\nhistory:\n  %s", i, sc.thresh, laStrs(sc.la), laStrs(sc.ifa), msg, strings.Join(out.trace, "\n  "))
 		}
 	}
@@ -734,21 +965,52 @@ func (o outcome) labelList(extra ...string) []string {
 // ---------------------------------------------------------------------------
 // Generator.
 
-const wtRest = "/quic-v1/webtransport/certhash/uEgNmb28"
+var localIPs = map[int][]string{4: {"0.0.0.0", "192.168.1.10", "7.7.7.7", "10.0.0.7"}, 6: {"::", "fd00::10", "2600:9::10"}}
 
-var (
-	localIPs = map[int][]string{4: {"0.0.0.0", "192.168.1.10", "7.7.7.7", "10.0.0.7"}, 6: {"::", "fd00::10", "2600:9::10"}}
-	// listen shapes: rests on the tcp thin waist, rests on the udp thin waist
-	shapes = []struct{ tcp, udp []string }{
-		{[]string{""}, nil},
-		{nil, []string{"/quic-v1"}},
-		{[]string{""}, []string{"/quic-v1"}},
-		{nil, []string{"/quic-v1", wtRest}},
-		{[]string{""}, []string{"/quic-v1", wtRest}},
-		{[]string{"", "/ws"}, []string{"/quic-v1", wtRest}},
-		{nil, []string{wtRest}},
+// drawListenSet draws the listen addresses of one local IP: any subset of the TCP rests
+// on the TCP port and any subset of the UDP rests on the UDP port (not both empty), in a
+// generated order (the real swarm reports them in map order). One history in three is
+// "plain": only tcp and QUIC(+WebTransport) listeners.
+func drawListenSet(rt *rapid.T, plain bool, fam int, ip string, tcpPort, udpPort int) []laddr {
+	var tcpMask, udpMask int
+	if plain { // the common deployment: tcp and/or QUIC(+WebTransport)
+		tcpMask = rapid.IntRange(0, 1).Draw(rt, "tcpRests")
+		udpMask = rapid.SampledFrom([]int{0, 1, 3, 2}).Draw(rt, "udpRests")
+	} else {
+		tcpMask = rapid.IntRange(0, 1<<len(tcpRests)-1).Draw(rt, "tcpRests")
+		udpMask = rapid.IntRange(0, 1<<len(udpRests)-1).Draw(rt, "udpRests")
 	}
-)
+	if tcpMask == 0 && udpMask == 0 {
+		tcpMask = 1
+	}
+	var ls []laddr
+	for i, r := range tcpRests {
+		if tcpMask&(1<<i) != 0 {
+			ls = append(ls, mkLaddr(fam, ip, "tcp", tcpPort, r))
+		}
+	}
+	for i, r := range udpRests {
+		if udpMask&(1<<i) != 0 {
+			ls = append(ls, mkLaddr(fam, ip, "udp", udpPort, r))
+		}
+	}
+	if len(ls) > 1 && rapid.Bool().Draw(rt, "shuffleListenSet") {
+		ls = rapid.Permutation(ls).Draw(rt, "listenSetOrder")
+	}
+	return ls
+}
+
+func drawQueryPlan(rt *rapid.T, nListen int) queryPlan {
+	q := queryPlan{mode: rapid.IntRange(0, 3).Draw(rt, "queryMode")}
+	if nListen > 1 {
+		q.rot = rapid.IntRange(0, nListen-1).Draw(rt, "queryRot")
+		for n := rapid.IntRange(0, 3).Draw(rt, "queryAgain"); n > 0; n-- {
+			q.again = append(q.again, rapid.IntRange(0, nListen-1).Draw(rt, "queryAgainPos"))
+		}
+	}
+	q.addrsFirst = rapid.IntRange(0, 3).Draw(rt, "addrsFirst") == 3
+	return q
+}
 
 type genConn struct {
 	open bool
@@ -770,20 +1032,14 @@ func drawScenario(rt *rapid.T) *scenario {
 	}
 	tcpPort := rapid.SampledFrom([]int{4001, 4002}).Draw(rt, "tcpPort")
 	udpPort := rapid.SampledFrom([]int{4001, 4003}).Draw(rt, "udpPort")
+	plainListen := rapid.IntRange(0, 2).Draw(rt, "listenStyle") == 2
 	for _, fam := range fams {
 		pool := localIPs[fam]
 		nIPs := rapid.IntRange(1, 2).Draw(rt, "nLocalIPs")
 		i0 := rapid.IntRange(0, len(pool)-1).Draw(rt, "localIP")
 		for j := 0; j < nIPs; j++ {
 			ip := pool[(i0+j)%len(pool)]
-			shape := shapes[rapid.IntRange(0, len(shapes)-1).Draw(rt, "shape")]
-			var ls []laddr
-			for _, r := range shape.tcp {
-				ls = append(ls, mkLaddr(fam, ip, "tcp", tcpPort, r))
-			}
-			for _, r := range shape.udp {
-				ls = append(ls, mkLaddr(fam, ip, "udp", udpPort, r))
-			}
+			ls := drawListenSet(rt, plainListen, fam, ip, tcpPort, udpPort)
 			if ip == "0.0.0.0" || ip == "::" {
 				sc.la = append(sc.la, ls...)
 			} else {
@@ -805,11 +1061,17 @@ func drawScenario(rt *rapid.T) *scenario {
 		sc.la = append(sc.la, laddr{s: "/p2p-circuit"})
 	}
 	var listenLocals []laddr
+	nListen := len(distinctListen(sc))
 	for _, l := range distinctListen(sc) {
 		if l.tw != "" {
 			listenLocals = append(listenLocals, l)
 		}
 	}
+	perm := make([]int, nListen)
+	for i := range perm {
+		perm[i] = i
+	}
+	sc.perm = rapid.Permutation(perm).Draw(rt, "queryPerm")
 	hot := rapid.IntRange(0, len(listenLocals)-1).Draw(rt, "hotLocal")
 	nGroups := rapid.IntRange(2, 7).Draw(rt, "observerGroups")
 	nOK := rapid.IntRange(1, 8).Draw(rt, "candidateExternalAddrs")
@@ -894,6 +1156,17 @@ func drawScenario(rt *rapid.T) *scenario {
 		gen = append(gen, &genConn{open: true, last: o})
 		sc.ops = append(sc.ops, op{kind: opObserve, conn: len(sc.conns) - 1, obs: o, tag: "new-conn"})
 	}
+	// a few generated ways of asking per history; every check point uses one of them
+	plans := make([]queryPlan, rapid.IntRange(1, 4).Draw(rt, "queryPlans"))
+	for i := range plans {
+		plans[i] = drawQueryPlan(rt, nListen)
+	}
+	for i := range sc.ops {
+		sc.ops[i].q = plans[0]
+		if len(plans) > 1 {
+			sc.ops[i].q = plans[rapid.IntRange(0, len(plans)-1).Draw(rt, "queryPlan")]
+		}
+	}
 	return sc
 }
 
@@ -910,7 +1183,7 @@ func (sc *scenario) describe() map[string]any {
 			ops = append(ops, fmt.Sprintf("clock +%v", o.dur))
 		}
 	}
-	return map[string]any{"ActivationThresh": sc.thresh, "ListenAddresses": laStrs(sc.la), "InterfaceListenAddresses": laStrs(sc.ifa), "ops": ops}
+	return map[string]any{"ActivationThresh": sc.thresh, "ListenAddresses": laStrs(sc.la), "InterfaceListenAddresses": laStrs(sc.ifa), "queryPermutation": sc.perm, "ops": ops}
 }
 
 // TestHistories: generated histories against the model.
@@ -1134,6 +1407,93 @@ func TestIneligibleSweep(t *testing.T) {
 					stats.CaseEnumerated(name, out.nontrivial, out.labelList(fmt.Sprintf("fam:v%d", fam), "class:"+kind)...)
 					if failure != "" {
 						t.Fatalf("fam=%d kind=%s thresh=%d local=%s: %s", fam, kind, thresh, local.s, failure)
+					}
+				}
+			}
+		}
+	}
+}
+
+// permutations of 0..n-1 in lexicographic order.
+func permutations(n int) [][]int {
+	var out [][]int
+	var rec func(cur []int, used int)
+	rec = func(cur []int, used int) {
+		if len(cur) == n {
+			out = append(out, slices.Clone(cur))
+			return
+		}
+		for i := 0; i < n; i++ {
+			if used&(1<<i) == 0 {
+				rec(append(cur, i), used|1<<i)
+			}
+		}
+	}
+	rec(nil, 0)
+	return out
+}
+
+// TestSharedWaistSweep: every set of two or more transports that can be bound to one
+// port (subsets of tcp / ws / tls+ws / tls+sni+ws on a TCP port, of QUIC / WebTransport /
+// WebRTC-direct on a UDP port), IPv4 and IPv6, every listen address of the set as the one
+// the reporting connections arrive at, every order of asking AddrsFor for the members of
+// the set (each pass followed by asking the first two again). One external address is
+// taken above the threshold, a second one (reported on connections to the NEXT member of
+// the set) exactly to it, then every connection closes. The oracle is the ordinary one:
+// each answer is an observed thin waist followed by the rest of the listen address that
+// was asked about, whatever was asked before, and answers already handed out keep their
+// value.
+func TestSharedWaistSweep(t *testing.T) {
+	name := t.Name()
+	idx := 0
+	for _, fam := range []int{4, 6} {
+		for _, proto := range []string{"tcp", "udp"} {
+			pool, port := tcpRests, 4001
+			if proto == "udp" {
+				pool, port = udpRests, 4003
+			}
+			ip := map[int]string{4: "0.0.0.0", 6: "::"}[fam]
+			for mask := 1; mask < 1<<len(pool); mask++ {
+				var set []laddr
+				for i, r := range pool {
+					if mask&(1<<i) != 0 {
+						set = append(set, mkLaddr(fam, ip, proto, port, r))
+					}
+				}
+				if len(set) < 2 {
+					continue
+				}
+				for reporter := range set {
+					for _, perm := range permutations(len(set)) {
+						idx++
+						if !hx.Mine(idx) {
+							continue
+						}
+						thresh := 1 + idx%3
+						// a listener of the other transport on the same IP, not part of the permuted set
+						otherL := mkLaddr(fam, ip, other(proto), 4002, defaultRest(other(proto)))
+						sc := &scenario{thresh: thresh, minObs: 1 + (idx/3)%3, la: append(slices.Clone(set), otherL)}
+						sc.perm = append(slices.Clone(perm), len(set))
+						q := queryPlan{mode: 2, again: []int{0, 1}, addrsFirst: idx%4 == 3}
+						a, b := set[reporter], set[(reporter+1)%len(set)]
+						obsA := okObs(fam, proto, 0, wireRest(a.rest))
+						obsB := okObs(fam, proto, 2, wireRest(b.rest))
+						for g := 0; g <= thresh; g++ {
+							sc.conns = append(sc.conns, mkConn(a, g, 0))
+							sc.ops = append(sc.ops, op{kind: opObserve, conn: len(sc.conns) - 1, obs: obsA, tag: "new-conn", q: q})
+						}
+						for g := 0; g < thresh; g++ {
+							sc.conns = append(sc.conns, mkConn(b, thresh+1+g, 1))
+							sc.ops = append(sc.ops, op{kind: opObserve, conn: len(sc.conns) - 1, obs: obsB, tag: "new-conn", q: q})
+						}
+						for c := range sc.conns {
+							sc.ops = append(sc.ops, op{kind: opClose, conn: c, tag: "close", q: q})
+						}
+						out, failure := bubbleRun(t, sc)
+						stats.CaseEnumerated(name, out.nontrivial, out.labelList(fmt.Sprintf("fam:v%d", fam), fmt.Sprintf("T=%d", thresh), fmt.Sprintf("set:%s:%d-members", proto, len(set)))...)
+						if failure != "" {
+							t.Fatalf("fam=%d listen set %v, reports on connections to %s, asked in order %v: %s", fam, laStrs(set), a.s, perm, failure)
+						}
 					}
 				}
 			}
